@@ -376,3 +376,4 @@ def run(prog, rep, tier, snap):
     from ..rules import encodings
     rep.rule("R05.4", "MAX-SIMUL sentinel encoding round-trips over the whole field domain (shared with C05)", 1)
     encodings.r05_4(prog, rep, which=("max_simul",))
+READY = True
